@@ -467,6 +467,27 @@ fn run_core(c: &CoreCase) -> Verdict {
     })
 }
 
+pub fn inbound_case() -> impl Strategy<Value = Case> {
+        let size = prop_oneof![4 => any::<u16>().prop_map(Size::Small), 1 => Just(Size::B0), 1 => Just(Size::B1), 1 => Just(Size::K64m1), 1 => Just(Size::K64), 1 => Just(Size::K64p1), 1 => Just(Size::K128), 1 => any::<u32>().prop_map(Size::Mid)];
+    let msg = (any::<u8>(), any::<u8>(), any::<u16>(), any::<u8>(), any::<u8>(), prop_oneof![3 => Just(0i32), 1 => -400i32..100]).prop_map(|(kind, response, value_len, claimed_source, key, ts_off)| Msg { kind, response, value_len, claimed_source, key, ts_off });
+    let input = prop_oneof![
+        2 => (size, any::<u8>()).prop_map(|(s, f)| Input::Random(s, f)),
+        5 => (msg.clone(), prop::collection::vec(mutn(), 1..5)).prop_map(|(m, ms)| Input::MutatedMsg(m, ms)),
+        4 => msg.prop_map(Input::ValidMsg),
+    ];
+    let ts = prop_oneof![3 => Just(0i32), 2 => prop_oneof![Just(-310i32), Just(-296), Just(-290), Just(-304), Just(20), Just(26), Just(34), Just(40)], 2 => -400i32..100];
+    (input, any::<u8>(), ts, any::<u8>(), prop_oneof![3 => Just(Vec::new()), 1 => prop::collection::vec(mutn(), 1..4)]).prop_map(|(input, protocol, frame_ts_off, frame_from, frame_mut)| Case { input, protocol, frame_ts_off, frame_from, frame_mut })
+}
+pub fn core_case() -> impl Strategy<Value = CoreCase> {
+    (any::<u8>(), any::<u8>(), any::<u16>(), any::<u8>(), prop_oneof![1 => Just(Vec::new()), 2 => prop::collection::vec(mutn(), 1..5)]).prop_map(|(kind, count, value_len, table, muts)| CoreCase { kind, count, value_len, table, muts })
+}
+pub fn check_inbound(c: &Case) -> Verdict {
+    run_case(c)
+}
+pub fn check_core(c: &CoreCase) -> Verdict {
+    run_core(c)
+}
+
 pub fn run(run: &Run) {
     run.assume("heap growth is measured by a thread-local counting allocator around each call on a single-threaded runtime");
     run.assume("timestamp window edges get a 5 s dead band (wall clock)");
@@ -474,20 +495,8 @@ pub fn run(run: &Run) {
     run.set_rule("core", "DhtRequestWrapper (FindNode count 0/20/21/usize::MAX, Store 0/512/513/60000 bytes, FindValue, Retrieve) serialised, mutated, decoded and handled on tables of 0..59 nodes; DhtRecord serialise/mutate/deserialise; non-trivial = mutated or extreme field");
     run.max_shrink.store(400, std::sync::atomic::Ordering::Relaxed);
     let sh = shards_for(run.tier);
-    let case = || {
-        let size = prop_oneof![4 => any::<u16>().prop_map(Size::Small), 1 => Just(Size::B0), 1 => Just(Size::B1), 1 => Just(Size::K64m1), 1 => Just(Size::K64), 1 => Just(Size::K64p1), 1 => Just(Size::K128), 1 => any::<u32>().prop_map(Size::Mid)];
-        let msg = (any::<u8>(), any::<u8>(), any::<u16>(), any::<u8>(), any::<u8>(), prop_oneof![3 => Just(0i32), 1 => -400i32..100]).prop_map(|(kind, response, value_len, claimed_source, key, ts_off)| Msg { kind, response, value_len, claimed_source, key, ts_off });
-        let input = prop_oneof![
-            2 => (size, any::<u8>()).prop_map(|(s, f)| Input::Random(s, f)),
-            5 => (msg.clone(), prop::collection::vec(mutn(), 1..5)).prop_map(|(m, ms)| Input::MutatedMsg(m, ms)),
-            4 => msg.prop_map(Input::ValidMsg),
-        ];
-        let ts = prop_oneof![3 => Just(0i32), 2 => prop_oneof![Just(-310i32), Just(-296), Just(-290), Just(-304), Just(20), Just(26), Just(34), Just(40)], 2 => -400i32..100];
-        (input, any::<u8>(), ts, any::<u8>(), prop_oneof![3 => Just(Vec::new()), 1 => prop::collection::vec(mutn(), 1..4)]).prop_map(|(input, protocol, frame_ts_off, frame_from, frame_mut)| Case { input, protocol, frame_ts_off, frame_from, frame_mut })
-    };
-    run.prop_f("inbound", run.tier.pick(3000, 100_000), sh, case, run_case);
-    let core = || (any::<u8>(), any::<u8>(), any::<u16>(), any::<u8>(), prop_oneof![1 => Just(Vec::new()), 2 => prop::collection::vec(mutn(), 1..5)]).prop_map(|(kind, count, value_len, table, muts)| CoreCase { kind, count, value_len, table, muts });
-    run.prop_f("core", run.tier.pick(6000, 300_000), sh, core, run_core);
+    run.prop_f("inbound", run.tier.pick(3000, 100_000), sh, inbound_case, run_case);
+    run.prop_f("core", run.tier.pick(6000, 300_000), sh, core_case, run_core);
 }
 
 pub fn replay(run: &Run, sub: &str, case: &Value) -> Option<bool> {
